@@ -112,12 +112,17 @@ fn finish(original: Unimock, obs: Vec<Obs>) -> Observed {
 
 fn run_plain(clauses: &[ClauseSpec], history: &[Call]) -> Observed {
     let original = Unimock::new(build_clause(clauses));
-    let n_clones = history.iter().map(|c| c.via).max().unwrap_or(0) as usize;
+    let n_clones = history.iter().map(|c| c.via & 0x7f).max().unwrap_or(0) as usize;
     let clones: Vec<Unimock> = (0..n_clones).map(|_| original.clone()).collect();
     let mut obs = vec![];
     for c in history {
-        let inst = if c.via == 0 { &original } else { &clones[c.via as usize - 1] };
-        obs.push(observe_call(inst, c.m, c.x).obs);
+        let inst = if c.via & 0x7f == 0 { &original } else { &clones[(c.via & 0x7f) as usize - 1] };
+        // 0x80: the call is made by another thread that borrows the instance
+        if c.via & 0x80 != 0 {
+            obs.push(observe_call_on_thread(inst, c.m, c.x).obs);
+        } else {
+            obs.push(observe_call(inst, c.m, c.x).obs);
+        }
     }
     drop(clones);
     finish(original, obs)
@@ -360,7 +365,8 @@ fn main() {
         let mut st = Stats::default();
         let clauses = &bases[*b];
         let base = run_plain(clauses, h);
-        let routes = sequences(&[0u8, 1, 2], h.len());
+        // original, clone 1, clone 2, and the original borrowed by another thread
+        let routes = sequences(&[0u8, 1, 2, 0x80], h.len());
         for r in routes {
             if r.iter().all(|v| *v == 0) {
                 continue;
@@ -476,7 +482,7 @@ fn main() {
         "bounds",
         J::obj()
             .set("a", format!("2 base lists of 6 clauses, every sublist of >= 2 clauses, every admissible shuffle, every history of depth {depth} over the methods involved"))
-            .set("b", format!("every history of depth {} x every assignment of its calls to {{original, clone 1, clone 2}}", depth.min(4)))
+            .set("b", format!("every history of depth {} x every assignment of its calls to {{original, clone 1, clone 2, original borrowed by another thread}}", depth.min(4)))
             .set("c", "every pair of depth-2 histories x every interleaving on two mocks built from the same clauses")
             .set("e", "two traits of one module with a same-named generic method: every subset of {A::get::<u8>, B::get::<u8>, A::get::<u16>} configured in every clause order, B ordered or unordered, every call pair; answers, missing-mock errors and the verification lines")
             .set("d", "every pattern list of length <= 3 over {g::<u8>, g::<u16>} x {any, 0}; every call sequence over both instantiations"),
